@@ -33,6 +33,10 @@ type c12rWrite struct {
 	// when the verdicts were really given (the application's goroutines may be stalled)
 	firstInvoke, lastInvoke, lastReturn time.Duration
 	nVerdicts                           int
+	lastInvokeSeq                       uint64
+	// the approval timer armed while this write was handled, and when its callback had finished
+	timer    *simrt.Task
+	timerEnd uint64
 }
 
 type c12rData struct {
@@ -43,6 +47,7 @@ type c12rData struct {
 	timeout time.Duration
 	w1, w2  *c12rWrite
 	dropCall, dropRet uint64
+	cur               *c12rWrite // the write being handled right now
 }
 
 func init() {
@@ -110,7 +115,7 @@ func init() {
 					if wait := x.verdictAt - w.Now(); wait > 0 {
 						w.Sleep(wait)
 					}
-					w.Logf("verdict approve for %s by callback %d", x.name, cb)
+					x.lastInvokeSeq = w.Logf("verdict approve for %s by callback %d", x.name, cb)
 					now := w.Now()
 					if x.nVerdicts == 0 || now < x.firstInvoke {
 						x.firstInvoke = now
@@ -131,6 +136,7 @@ func init() {
 						if del.D != nil && len(del.D.Payload.Cmd) > 0 && x.t0 == 0 {
 							if cd, err := del.D.Payload.Cmd[0].Data(); err == nil && CanonAny(cd.Value) == x.canon {
 								x.t0 = w.Now() + 1
+								d.cur = x
 							}
 						}
 					}
@@ -141,9 +147,22 @@ func init() {
 							x.t1 = w.Now() + 1
 						}
 					}
+					d.cur = nil
 				}
 			}
 			stamp()
+			w.SpawnHook = func(t *simrt.Task) {
+				if t.Kind == "timer" && d.cur != nil && d.cur.timer == nil {
+					d.cur.timer = t
+				}
+			}
+			w.StepCheck = func() {
+				for _, x := range []*c12rWrite{d.w1, d.w2} {
+					if x.timer != nil && x.timerEnd == 0 && x.timer.Done() {
+						x.timerEnd = w.Seq
+					}
+				}
+			}
 			w.Go("script:"+p.Name, func() {
 				p.AwaitDiscovery()
 				cf := (&actor{w: w, pr: pr}).clientFor(p, sf)
@@ -252,7 +271,9 @@ func init() {
 					w.Violate("C12/reconnect/unanimous-approval-not-applied", "%s", desc)
 				}
 				w.Probe("c12r-expect-applied")
-			case x.nVerdicts < d.ncb || x.lastInvoke > x.t1+d.timeout+tol:
+			case x.nVerdicts < d.ncb || (x.lastInvoke > x.t1+d.timeout+tol && x.timer != nil && x.timerEnd != 0 && x.timerEnd < x.lastInvokeSeq):
+				// (the timeout counts once its callback has run: a timer that is due but whose
+				// goroutine is stalled has not decided anything yet)
 				if nErr != 1 || applied != 0 {
 					w.Violate("C12/reconnect/late-approval-applied", "%s", desc)
 				}
